@@ -597,7 +597,9 @@ func (en *Engine) VerifyFunc(fc *FuncContract) (res *FuncResult) {
 	if rst != nil {
 		hooks := map[string]bool{}
 		for name := range fc.CallSites {
-			hooks[name] = true
+			if !fc.OptHooks[name] {
+				hooks[name] = true
+			}
 		}
 		for _, gu := range fc.GhostUps {
 			if gu.OnCall != "" && !gu.Optional {
